@@ -101,6 +101,7 @@ template<class B> static typename B::Iterator nthIter(B& b, typename B::Params& 
 static void runBopsO2(const std::vector<BOp>& ops)
 {
 	typedef O2<3> B; Raw<B> r; MemManagerDefault mm; B::Params pa(mm);
+	for (size_t i = 0; i < 3; ++i) r.b->mHashData.hashProbes[i] = 0;   // the constructor leaves them uninitialised (the memset in Raw() may be elided as a dead store)
 	for (auto& o : ops)
 	{
 		size_t cnt = r.b->pvGetCount();
